@@ -42,9 +42,9 @@ func (mgr *Manager) RemoveSelf(target key.TargetID, instance *Instance) {
 			continue
 		}
 
-		last := len(mgr.targets[target]) - 1
-		mgr.targets[target][i] = mgr.targets[target][last]
-		mgr.targets[target] = mgr.targets[target][:last]
+		// remove in place keeping the order of the remaining modifiers: attachment order is
+		// observable (dispel by first/last added, listener and stat evaluation order)
+		mgr.targets[target] = append(mgr.targets[target][:i], mgr.targets[target][i+1:]...)
 		mgr.emitRemove(target, []*Instance{instance})
 		return
 	}
